@@ -25,9 +25,9 @@ def _should_set_millisecond(cr, marking_type):
             return True
         else:
             return False
-    if cr.precision == 'millisecond':
-        return True
-    return False
+    # datetime objects: any sub-second part will be re-read from JSON with
+    # millisecond precision, so use that precision from the start
+    return True
 
 
 class ExternalReference(_STIXBase20):
@@ -137,12 +137,11 @@ class MarkingDefinition(_STIXBase20, _MarkingsMixin):
             except KeyError:
                 raise ValueError("definition_type must be a valid marking type")
 
-            if 'created' in kwargs:
-                if _should_set_millisecond(kwargs['created'], marking_type):
-                    self._properties = copy.deepcopy(self._properties)
-                    self._properties.update([
-                        ('created', TimestampProperty(default=lambda: NOW, precision='millisecond')),
-                    ])
+            if 'created' not in kwargs or _should_set_millisecond(kwargs['created'], marking_type):
+                self._properties = copy.deepcopy(self._properties)
+                self._properties.update([
+                    ('created', TimestampProperty(default=lambda: NOW, precision='millisecond')),
+                ])
 
             if not isinstance(kwargs['definition'], marking_type):
                 defn = _get_dict(kwargs['definition'])
